@@ -23,7 +23,7 @@ OUTPUT = "DecodeGen.v"
 ITEMS = ["dg_window_min", "dg_window_max", "dg_max_members", "dg_unlimited", "dg_window_next", "dg_budget",
          "dg_budget_spent", "dg_too_many_members", "dg_gzip_reset", "dg_max_length", "dg_sniff_raw",
          "dg_remaining", "dg_low", "dg_high", "dg_highc", "dg_lowc", "dg_feed_pause", "dg_chunk_pause",
-         "dg_resume_size", "dg_resume_chunks", "dg_split_stale", "dg_raises", "dg_raise_low", "dg_raise_high",
+         "dg_resume_size", "dg_resume_when_empty", "dg_resume_chunks", "dg_split_stale", "dg_raises", "dg_raise_low", "dg_raise_high",
          "dg_too_large", "dg_maxsize"]
 
 CU = "aiohttp/compression_utils.py"
@@ -224,7 +224,14 @@ def generate() -> str:
             and isinstance(rt.values[1], ast.BoolOp) and isinstance(rt.values[1].op, ast.Or) and len(rt.values[1].values) == 2
             and ast.dump(rt.values[1].values[0]) == _dump("self._http_chunk_splits is None")):
         raise TranslatorError("_read_nowait_chunk: resume test is not `a and (splits is None or b)`")
-    out.append(f"Definition dg_resume_size (size low : N) : bool := {core.comparison(rt.values[0], {'_size': 'size', '_low_water': 'low'})}.")
+    first = rt.values[0]
+    when_empty = False
+    if isinstance(first, ast.BoolOp):      # `(self._size < self._low_water or not self._buffer)`
+        if not (isinstance(first.op, ast.Or) and len(first.values) == 2 and ast.dump(first.values[1]) == _dump("not self._buffer")):
+            raise TranslatorError("_read_nowait_chunk: resume test: first conjunct is not `size < low` or `(size < low or not self._buffer)`")
+        first, when_empty = first.values[0], True
+    out.append(f"Definition dg_resume_size (size low : N) : bool := {core.comparison(first, {'_size': 'size', '_low_water': 'low'})}.")
+    out.append(f"(* `or not self._buffer` present in the resume test *)\nDefinition dg_resume_when_empty : bool := {'true' if when_empty else 'false'}.")
     out.append("Definition dg_resume_chunks (nsplits lowc : N) : bool := "
                + core.comparison(_sub(rt.values[1].values[1], tbl), {"nsplits": "nsplits", "_low_water_chunks": "lowc"}) + ".")
     wl = _one([n for n in ast.walk(fn) if isinstance(n, ast.While)], "_read_nowait_chunk while")
